@@ -26,7 +26,7 @@ type c06 struct {
 
 func init() { core.Register(&c06{}) }
 
-var c06Alphabet = []string{"Sv", "Si", "Sj", "Sr", "Sd", "Se", "Co", "Cx", "Cs", "Xo", "Xx", "Xs", "W"}
+var c06Alphabet = []string{"Sv", "Sn", "Si", "Sj", "Sr", "Sd", "Se", "Co", "Cx", "Cs", "Xo", "Xx", "Xs", "W"}
 
 func (c *c06) ID() string    { return "C06" }
 func (c *c06) Level() string { return "exploration" }
@@ -64,7 +64,7 @@ func (c *c06) NumCases(tier string) int {
 func (c *c06) Exhaustive(tier string) bool { return false } // exhaustive part + random tail: not flagged as a whole
 
 func (c *c06) Rule() string {
-	return "one case = one operation sequence over {Set(valid|validation-failure|dry-run|device-error), Confirm(open id|other id|stale id), Cancel(open|other|stale), wait-for-timeout} on a fresh datastore; all sequences up to length 3 (quick) / 4 (thorough) are enumerated exhaustively, longer ones are PRNG-drawn; after every operation the return value, the registered transaction and its timer state (read-only VerifOpenTransaction) and the traffic at the recording device are compared with a sequential model of the transaction slot; every sequence ends with a fresh Set that must be accepted. distinct = the sequence; non-trivial = contains a Set that opens a transaction and at least one later operation"
+	return "one case = one operation sequence over {Set(valid|valid without any change for the device|validation-failure|dry-run|device-error), Confirm(open id|other id|stale id), Cancel(open|other|stale), wait-for-timeout} on a fresh datastore; all sequences up to length 3 (quick) / 4 (thorough) are enumerated exhaustively, longer ones are PRNG-drawn; after every operation the return value, the registered transaction and its timer state (read-only VerifOpenTransaction) and the traffic at the recording device are compared with a sequential model of the transaction slot; every sequence ends with a fresh Set that must be accepted. distinct = the sequence; non-trivial = contains a Set that opens a transaction and at least one later operation"
 }
 
 func (c *c06) Assumptions() []string {
@@ -115,6 +115,8 @@ type slotModel struct {
 	confVal  string
 	oldVal   string
 	hasValue bool
+	noChange bool // the open transaction changed nothing on the device
+	loose    bool // the last operation may or may not have sent an (empty) Set to the device
 }
 
 func (c *c06) RunCase(w *core.Worker, idx int, seed uint64, res *core.CaseResult) {
@@ -152,6 +154,18 @@ func (c *c06) RunCase(w *core.Worker, idx int, seed uint64, res *core.CaseResult
 	mkIntent := func(kind string, n int) []*types.TransactionIntent {
 		req := &sdcpb.TransactionIntent{Intent: "c06", Priority: 10}
 		switch kind {
+		case "Sn":
+			// a valid transaction that changes nothing on the device: a stored intent re-submitted verbatim, the delete
+			// of an intent that does not exist, or no intent at all
+			switch n % 3 {
+			case 0:
+				req.Intent, req.Priority = "m1", 90
+				req.Update = []*sdcpb.Update{{Path: model.Parse("/cons/mst/a").ToPb(), Value: model.MkTv("on")}}
+			case 1:
+				req.Intent, req.Delete = "ghost", true
+			case 2:
+				return []*types.TransactionIntent{}
+			}
 		case "Si":
 			// validation failure: mandatory leaf of the list entry missing (reported under the pseudo owner "unknown")
 			req.Update = []*sdcpb.Update{{Path: model.Parse("/cons/mlist[k=x]/opt").ToPb(), Value: model.MkTv(fmt.Sprintf("o%d", n))}}
@@ -178,6 +192,7 @@ func (c *c06) RunCase(w *core.Worker, idx int, seed uint64, res *core.CaseResult
 			// the short timeout elapsed while the operation ran: the model takes the expiry transition
 			m.stale, m.open = m.open, ""
 			m.devSets++
+			m.loose = m.loose || m.noChange
 			res.Count("timeouts_observed_early", 1)
 		}
 		if id != m.open {
@@ -189,7 +204,10 @@ func (c *c06) RunCase(w *core.Worker, idx int, seed uint64, res *core.CaseResult
 		} else if id != "" && !armed {
 			res.Violate("C06/timer-not-running-after-"+opClass(op), "step %d (%s): transaction %q is open but its rollback timer is not running\n  sequence: %s", step, op, id, strings.Join(seq, " "))
 		}
-		if n := ds.Dev.NumSets(); n != m.devSets {
+		if n := ds.Dev.NumSets(); m.loose && (n == m.devSets || n == m.devSets-1) {
+			// a transaction without a change (or its rollback): whether an empty Set reaches the device is not stated
+			m.devSets = n
+		} else if n != m.devSets {
 			res.Violate("C06/device-traffic-after-"+opClass(op), "step %d (%s): device saw %d Set calls, model expects %d\n  sequence: %s", step, op, n, m.devSets, strings.Join(seq, " "))
 			m.devSets = n
 		}
@@ -213,6 +231,7 @@ func (c *c06) RunCase(w *core.Worker, idx int, seed uint64, res *core.CaseResult
 		}
 		res.Count("ops", 1)
 		res.Count("op:"+op, 1)
+		m.loose = false
 		switch op[0] {
 		case 'S':
 			txn++
@@ -261,8 +280,19 @@ func (c *c06) RunCase(w *core.Worker, idx int, seed uint64, res *core.CaseResult
 						return
 					}
 					m.open, m.short = id, short
+					m.noChange = false
 					m.devSets++
 					opensTx = true
+				case "Sn":
+					if err == nil && !hasErrs {
+						m.open, m.short = id, short
+						m.noChange, m.loose = true, true
+						m.devSets++
+						opensTx = true
+						res.Count("no_change_transactions_opened", 1)
+					} else {
+						res.Count("no_change_transactions_refused", 1)
+					}
 				case "Si", "Sj", "Sr":
 					if err == nil && !hasErrs {
 						res.Violate("C06/invalid-accepted", "step %d: invalid intent accepted", i)
@@ -318,6 +348,7 @@ func (c *c06) RunCase(w *core.Worker, idx int, seed uint64, res *core.CaseResult
 					m.open = ""
 					if op[0] == 'X' {
 						m.devSets++ // the rollback
+						m.loose = m.noChange
 					}
 				}
 			} else {
@@ -346,6 +377,7 @@ func (c *c06) RunCase(w *core.Worker, idx int, seed uint64, res *core.CaseResult
 				m.stale = m.open
 				m.open = ""
 				m.devSets++ // the rollback
+				m.loose = m.noChange
 				// the timer goroutine releases the slot after the rollback has been applied; give the device counter a moment
 				time.Sleep(2 * time.Millisecond)
 			} else {
@@ -394,6 +426,8 @@ func opClass(op string) string {
 	switch op {
 	case "Sv":
 		return "set"
+	case "Sn":
+		return "set-without-change"
 	case "Si", "Sj", "Sr":
 		return "validation-failure"
 	case "Sd":
